@@ -75,6 +75,35 @@ def r12_1_4(ctx, A):
             em = okv in (('citem', 'raw::EMPTY_ADDRESS'), ('const', 0))
             if em:
                 seen.add('empty')
+                # address 0 is read back as "final, no transitions, zero final output" (Node::new): the shortcut may be taken
+                # only for exactly that node
+                facts = {}
+                for d in p.decisions:
+                    e, o = d[2], d[3]
+                    if not isinstance(o, int):
+                        continue
+                    neg = False
+                    while e[0] == 'un' and e[1] == 'Not':
+                        e, neg = e[2], not neg
+                    flds = {x[2] for x in walk(e) if x[0] == 'field' and x[1][0] == 'param'}
+                    val = bool(o) != neg
+                    if e[0] == 'field' and e[2] == 'is_final':
+                        facts['is_final'] = val
+                    elif 'trans' in flds and (is_call(e, '::is_empty') or (e[0] == 'bin' and e[1] == 'Eq' and e[3] == ('const', 0) and is_call(e[2], '::len'))):
+                        facts['trans'] = val
+                    elif 'trans' in flds and e[0] == 'bin' and e[1] == 'Ne' and e[3] == ('const', 0) and is_call(e[2], '::len'):
+                        facts['trans'] = not val
+                    elif 'final_output' in flds and (is_call(e, 'Output::is_zero') or (e[0] == 'bin' and e[1] == 'Eq' and e[3] == ('const', 0))):
+                        facts['final_output'] = val
+                    elif 'final_output' in flds and e[0] == 'bin' and e[1] == 'Ne' and e[3] == ('const', 0):
+                        facts['final_output'] = not val
+                if not facts:
+                    ctx.undecided(R1, 'empty-shortcut', 'address 0 is returned on a path whose guard is not in a recognised form', fn=f)
+                else:
+                    lacking = [k for k in ('is_final', 'trans', 'final_output') if facts.get(k) is not True]
+                    ctx.check(R1, not lacking, 'empty-shortcut', 'a node is mapped to address 0 (read back as the final node without transitions and with zero final output) '
+                              'without requiring %s: its %s is lost' % (' and '.join({'is_final': 'finality', 'trans': 'an empty transition list', 'final_output': 'a zero final output'}[k] for k in lacking),
+                                                                         ' / '.join({'is_final': 'non-finality', 'trans': 'transitions', 'final_output': 'value'}[k] for k in lacking)), fn=f)
     if 'emit' in seen and 'record' not in seen:
         ctx.violation(R1, 'record-after-emit', 'a newly emitted node is never recorded in the cache (no path stores its address in the cell the lookup handed back): every later equal node is emitted again', fn=f)
     ctx.check(R1, {'emit', 'record', 'hit'} <= seen, 'paths', 'compiler paths recognised: %s' % sorted(seen), fn=f, kind='undecided')
@@ -90,6 +119,50 @@ def r12_1_4(ctx, A):
                 pops = [c for c in path_calls(p) if isinstance(c[2], str) and (c[2].endswith('::pop_empty') or c[2].endswith('::pop_freeze'))]
                 n += 1
                 ctx.check(R4, len(cs) == 1 and len(pops) == 1, 'one-compile-per-frozen-node', 'each iteration of the freeze loop must pop exactly one unfinished node and compile it once', fn=cf)
+                # the loop freezes exactly the nodes above depth `istate` (guard istate + 1 < len), and links each popped node to the
+                # child compiled in the previous iteration (pop_freeze(addr)) - the deepest one has no child (pop_empty)
+                ip = [i for i in range(1, cf.arg_count + 1) if cf.local_ty(i) == 'usize']
+                gd = [d for d in p.decisions if d[2][0] == 'bin' and d[2][1] in ('Lt', 'Le', 'Gt', 'Ge', 'Ne', 'Eq') and any(is_call(x, 'UnfinishedNodes::len') or is_call(x, '::len') for x in walk(d[2]))
+                      and any(x[0] == 'param' and ip and x[2] == ip[0] for x in walk(d[2]))]
+                if gd and ip:
+                    e, o = gd[0][2], gd[0][3]
+
+                    def lin3(x):
+                        # (coefficient of istate, coefficient of len, constant) or None
+                        while x[0] == 'cast':
+                            x = x[1]
+                        if x[0] == 'const':
+                            return (0, 0, x[1])
+                        if x[0] == 'param' and x[2] == ip[0]:
+                            return (1, 0, 0)
+                        if is_call(x, '::len'):
+                            return (0, 1, 0)
+                        if x[0] == 'bin' and x[1] in ('Add', 'Sub'):
+                            a, b = lin3(x[2]), lin3(x[3])
+                            if a is None or b is None:
+                                return None
+                            sg = 1 if x[1] == 'Add' else -1
+                            return tuple(p_ + sg * q_ for p_, q_ in zip(a, b))
+                        return None
+                    l, r = lin3(e[2]), lin3(e[3])
+                    op = e[1]
+                    if not o:
+                        op = {'Lt': 'Ge', 'Le': 'Gt', 'Gt': 'Le', 'Ge': 'Lt', 'Eq': 'Ne', 'Ne': 'Eq'}[op]
+                    if l is None or r is None or op in ('Eq', 'Ne'):
+                        ctx.undecided(R4, 'freeze-depth', 'the guard of the freeze loop is not a linear comparison of the depth with the number of unfinished nodes: %s' % fmt(e)[:80], fn=cf)
+                    else:
+                        if op in ('Gt', 'Ge'):
+                            l, r, op = r, l, {'Gt': 'Lt', 'Ge': 'Le'}[op]
+                        d3 = tuple(b_ - a_ for a_, b_ in zip(l, r))       # r - l  (>= 1 for Lt, >= 0 for Le)
+                        k = 1 if op == 'Lt' else 0
+                        # continue iff  d3.istate * istate + d3.len * len + d3.c >= k ;  wanted: len - istate >= 2
+                        good = d3[0] == -1 and d3[1] == 1 and k - d3[2] == 2
+                        ctx.check(R4, good, 'freeze-depth', 'the freeze loop must run exactly while more than istate + 1 unfinished nodes remain (found %s = %s): freezing one node too many or too few corrupts the shared prefix of the next key' % (fmt(e)[:80], bool(o)), fn=cf)
+                if len(pops) == 1:
+                    first = [d for d in p.decisions if d[2][0] == 'bin' and d[2][1] in ('Eq', 'Ne') and ('citem', 'raw::NONE_ADDRESS') in (d[2][2], d[2][3]) and d[0] < pops[0][0]]
+                    if first:
+                        isnone = (first[-1][2][1] == 'Eq') == (first[-1][3] == 1)
+                        ctx.check(R4, isnone == pops[0][2].endswith('::pop_empty'), 'freeze-links-child', 'a popped node must be linked to the child compiled just before it (pop_freeze(addr)) unless it is the deepest one (no child yet: pop_empty); here the choice is inverted', fn=cf)
         if n == 0:
             ctx.undecided(R4, 'freeze-loop', 'freeze loop not recognised', fn=cf)
 
@@ -101,6 +174,26 @@ def r12_2(ctx):
     for ty in ('raw::build::BuilderNode', 'raw::Transition'):
         imp = [i for i in lib.impls if i['self_ty'] == ty and i.get('trait_path') == 'std::cmp::PartialEq']
         ctx.check(R, len(imp) == 1 and imp[0]['from_expansion'], 'derived-eq:' + ty.rsplit('::', 1)[-1], '%s must use the derived (all-fields) equality (impls: %s)' % (ty, [(i['from_expansion']) for i in imp]))
+    # occupancy: a fresh cell carries the "no address" marker, is_none tests for exactly that marker, insert stores the address
+    isn, none_f, ins = lib.fn(CELL + '::is_none'), lib.fn(CELL + '::none'), lib.fn(CELL + '::insert')
+    marker = (('citem', 'raw::NONE_ADDRESS'),)
+    if isn is not None:
+        r = [p.ret() for p in explore(isn, max_visits=1) if p.end == 'return']
+        if len(r) == 1 and r[0][0] == 'bin' and r[0][1] in ('Eq', 'Ne', 'Lt', 'Le', 'Gt', 'Ge'):
+            sides = (r[0][2], r[0][3])
+            fld = [x for x in sides if x[0] == 'field' and x[1][0] == 'param']
+            mk = [x for x in sides if x[0] in ('citem', 'const')]
+            if fld and mk:
+                okm = True
+                if none_f is not None:
+                    rn = [p.ret() for p in explore(none_f, max_visits=1) if p.end == 'return']
+                    okm = len(rn) == 1 and rn[0][0] == 'agg' and dict(rn[0][2]).get(fld[0][2]) == mk[0]
+                ctx.check(R, r[0][1] == 'Eq' and okm, 'cell-occupancy', 'a cell is free iff its address field EQUALS the marker a fresh cell is created with (found "%s" against %s; fresh cell consistent: %s): '
+                          'otherwise occupied cells never hit (nothing is shared) or free cells hit (links to address garbage)' % (r[0][1], fmt(mk[0])[:40], okm), fn=isn)
+            else:
+                ctx.undecided(R, 'cell-occupancy', 'is_none is not a comparison of a cell field with a constant', fn=isn)
+        else:
+            ctx.undecided(R, 'cell-occupancy', 'is_none not in a recognised form', fn=isn)
     f = lib.fn(CACHE + '::entry')
     if f is None:
         ctx.missing(R, 'anchor:cache-entry', 'row lookup not found')
@@ -389,6 +482,109 @@ def r12_5(ctx):
         ctx.undecided(R, 'refreshed-is-returned', 'no miss path recognised', fn=f)
 
 
+def r12_7(ctx, A):
+    """a miss may be declared only after EVERY cell of the row was compared with the probe, and the cell it overwrites is the last
+    (least recently used) one - with MRU order the occupied cells form a prefix of the row, so the last cell is a free one whenever
+    there is one.  A branch specialised for a row length it is not guarded by (`len != 1` for `len == 1`) halves the cache: nodes
+    are forgotten although no eviction was necessary."""
+    R = ctx.rule('R12.7', 'a miss inspects the whole row and overwrites its last (LRU) cell', floor=2)
+    lib = ctx.lib
+    f = lib.fn(CACHE + '::entry')
+    if f is None:
+        ctx.missing(R, 'anchor:cache-entry', 'row lookup not found')
+        return
+    # the row length in the shipped configuration: the column literal of the only Registry::new call outside tests
+    cols = set()
+    nt = lib.fn(A.builder + '::<W>::new_type')
+    if nt is not None:
+        for p in explore(nt, max_visits=1):
+            for (k, bid, callee, args, t) in path_calls(p):
+                if callee == REG + '::new' and len(args) == 2:
+                    a = strip(args[1])
+                    cols.add(a[1] if a[0] == 'const' else (lib.const_scalar(a[1]) if a[0] == 'citem' else None))
+    n_cfg = cols.pop() if len(cols) == 1 and None not in cols else None
+
+    def is_len(e):
+        e = strip(e)
+        return e[0] == 'call' and isinstance(e[1], str) and e[1].endswith('::len')
+
+    def holds(op, a, b):
+        return {'Eq': a == b, 'Ne': a != b, 'Lt': a < b, 'Le': a <= b, 'Gt': a > b, 'Ge': a >= b}.get(op)
+    n = 0
+    for p in explore(f, max_visits=1, havoc=True):
+        if p.end != 'return':
+            continue
+        rv = p.ret()
+        if not (rv[0] == 'agg' and rv[1].endswith('RegistryEntry::NotFound')):
+            continue
+        lens = []
+        whole = False
+        seen = set()
+        odd = False
+        for d in p.decisions:
+            e = strip(d[2])
+            if e[0] == 'bin' and is_len(e[2]) and strip(e[3])[0] == 'const':
+                lens.append((e[1], strip(e[3])[1], d[3]))
+            elif e[0] == 'bin' and is_len(e[3]) and strip(e[2])[0] == 'const':
+                lens.append(({'Lt': 'Gt', 'Gt': 'Lt', 'Le': 'Ge', 'Ge': 'Le'}.get(e[1], e[1]), strip(e[2])[1], d[3]))
+            elif e[0] == 'discr' and any(is_call(x, '::position') or is_call(x, '::find') or is_call(x, '::any') for x in walk(e)) and d[3] == 0:
+                whole = True
+            elif e[0] == 'call' and e[2]:
+                for a in e[2]:
+                    a = strip(a)
+                    while a[0] == 'field':
+                        a = a[1]
+                    if a[0] == 'index':
+                        i = strip(a[2]) if not isinstance(a[2], str) else None
+                        if isinstance(a[2], str) and re.fullmatch(r'\[(\d+)\]', a[2]):
+                            seen.add(int(a[2][1:-1]))
+                        elif i is not None and i[0] == 'const':
+                            seen.add(i[1])
+                        else:
+                            odd = True
+        if n_cfg is not None:
+            if not all(holds(op, n_cfg, c) == bool(o) for op, c, o in lens if holds(op, n_cfg, c) is not None):
+                continue           # not reachable with the shipped row length
+            rowlen = n_cfg
+        else:
+            eq = [c for op, c, o in lens if (op == 'Eq' and o == 1) or (op == 'Ne' and o == 0)]
+            rowlen = eq[0] if eq else None
+        n += 1
+        if whole:
+            ctx.check(R, True, 'whole-row', '', fn=f)
+        elif rowlen is None or odd:
+            ctx.undecided(R, 'whole-row', 'a miss path whose row length / compared cells are not in a recognised form', fn=f)
+            continue
+        else:
+            missing = sorted(set(range(rowlen)) - seen)
+            ctx.check(R, not missing, 'whole-row', 'a miss is declared on a path that never compared cell(s) %s of a row of %d: an equal node stored there is emitted again although nothing had to be evicted' % (missing, rowlen), fn=f,
+                      detail={'path': p.blocks, 'row_len': rowlen, 'compared': sorted(seen)})
+        # victim
+        vict = None
+        for (k, bid, callee, args, t) in path_calls(p, expand=False):
+            if isinstance(callee, str) and callee.endswith('Clone>::clone_from'):
+                a = strip(args[0])
+                while a[0] == 'field':
+                    a = a[1]
+                if a[0] == 'index':
+                    vict = a[2]
+        if vict is None:
+            ctx.undecided(R, 'victim', 'the overwritten cell is not identified on a miss path', fn=f)
+            continue
+        if isinstance(vict, str):
+            m = re.fullmatch(r'\[(\d+)\]', vict)
+            vict = ('const', int(m.group(1))) if m else ('?',)
+        v = strip(vict)
+        if v[0] == 'const' and rowlen is not None:
+            ctx.check(R, v[1] == rowlen - 1, 'victim', 'a miss overwrites cell %d of a row of %d: the most recently used entries are evicted while the last cell (free, or least recently used) is kept' % (v[1], rowlen), fn=f)
+        elif v[0] == 'bin' and v[1] == 'Sub' and is_len(v[2]) and strip(v[3]) == ('const', 1):
+            ctx.check(R, True, 'victim', '', fn=f)
+        else:
+            ctx.undecided(R, 'victim', 'victim index %s not in a recognised form' % fmt(v)[:60], fn=f)
+    if n == 0:
+        ctx.undecided(R, 'whole-row', 'no miss path recognised', fn=f)
+
+
 def strip(e):
     while isinstance(e, tuple) and e[0] == 'cast':
         e = e[1]
@@ -406,3 +602,4 @@ def run(ctx):
     ctx.step(r12_2, ctx)
     ctx.step(r12_3_6, ctx, A)
     ctx.step(r12_5, ctx)
+    ctx.step(r12_7, ctx, A)
